@@ -36,5 +36,8 @@ def run(ctx):
     # the synchronous hand-off through hierarchies (async_and_wait run by the drainer of a lower level, sync through several levels): an item
     # handed off this way runs under every lock of its chain - no two items of a serial level overlap, every call returns after its item
     run_traces(ctx, "c03_hier", [[ctx.seed * 100 + 60 + i, 6, 2000 if ctx.thorough else 300, 0] for i in range(4 if ctx.thorough else 2)], None, None, "L-api hand-off through hierarchies", "hier", extra=["-ldl"], timeout=400)
+    # an active queue moved under a serial queue (and back) while synchronous submitters hand it to each other: a call returns only after its
+    # item has run, with its result visible (c02_retarget's return / visibility oracle; the hand-off consults the queue's role in the hierarchy)
+    run_traces(ctx, "c02_retarget", [[ctx.seed * 100 + 70 + i, 6, 4000 if ctx.thorough else 2000, i % 2] for i in range(3 if ctx.thorough else 2)], None, None, "L-api retargeted queue hand-off", "retarget", timeout=200)
     ctx.cov["rule"] = ("c05_hb: N threads x ops of sync / barrier_sync / async_and_wait / barrier_async_and_wait / async on one serial and one concurrent queue with payload checks, then "
                        "group / semaphore / once rounds; items = work items judged; transitions = dte_value transitions explained by EventP")
